@@ -98,6 +98,163 @@ CHECKS = {
              'the stored interior nodes on its descent path, reads none.',
         note='trusted: MiniDB optimistic commit, PersistentReference '
              'contract, read-current check'),
+    'C06': dict(
+        cat='exploration', ref='5 C06',
+        technique='round-trip monitor (getstate/setstate, pickle 0-5, copy, '
+                  'cross-implementation loads, byte comparison of C and '
+                  'Python pickles, record-graph comparison through MiniDB)',
+        text='Containers reached by generated histories are round-tripped '
+             'through __getstate__/__setstate__, pickle protocols 0-5, copy '
+             'and deepcopy; C pickles are loaded as Python classes and vice '
+             'versa; the C and Python pickles of the same history must be '
+             'byte-identical and, committed through MiniDB at the same '
+             'points, produce the same record graph and be readable by the '
+             'other implementation; every clone must be sound and follow '
+             'the reference model through 20 further calls.',
+        note='trusted: reference model, walker, MiniDB; known findings F13, '
+             'F22, F24, F34'),
+    'C09': dict(
+        cat='exploration', ref='5 C09',
+        technique='differential monitor: paired execution of C and Python '
+                  'classes with hostile arguments, lazy-view walks, '
+                  'stale-separator trees; shape and pickle comparison',
+        text='The same generated history, with about a quarter of the '
+             'arguments replaced by boundary and wrong-typed data, is '
+             'applied to XX<Kind> and XX<Kind>Py; results, exception '
+             'classes and contents are compared after every call, tree '
+             'shape and pickle bytes every few calls; for data outside the '
+             'domain lookups must report absence and writes raise TypeError '
+             'and change nothing, in both.',
+        note='trusted: families.key_ok/val_ok as the statement of each '
+             'domain; known divergences F08 F13 F14 F15 F25 F26 F28 F30 are '
+             'reported by mechanism'),
+    'C10': dict(
+        cat='exploration', ref='5 C10',
+        technique='oracle monitor: Python set algebra on the keys, result '
+                  'kind / values / operand-unchanged checks; ASan build for '
+                  'the C functions',
+        text='Module functions, operators and in-place forms are applied to '
+             'operand pairs of every kind (containers of all shapes, plain '
+             'iterables incl. unsorted / duplicate-carrying / one-shot ones, '
+             'lazy views, containers of the other implementation, None) and '
+             'compared with Python set algebra.',
+        note='known findings F23 (duplicates inside an iterable operand), '
+             'F26 (None in a sorted-copy operand)'),
+    'C11': dict(
+        cat='exploration', ref='5 C11',
+        technique='oracle monitor: sorted(set(keys)) over size classes on '
+                  'both sides of the sort-algorithm switches; ASan+UBSan '
+                  'build',
+        text='multiunion over 0..12 operands of every kind, total sizes 0 to '
+             '20000 on both sides of the insertion-sort / quicksort / '
+             'radix-sort switches, keys over the whole range incl. top-bit '
+             'and extreme values and byte-window patterns, for the 16 '
+             'integer-key families in C (also under ASan) and Python; the '
+             'result must be the exact sorted union and behave as a Set.',
+        note='trusted: sorted(set(...))'),
+    'C12': dict(
+        cat='exploration', ref='5 C12',
+        technique='oracle monitor: the IIMerge docstrings written out with '
+                  'exact rational arithmetic',
+        text='weightedUnion / weightedIntersection for the 16 '
+             'numeric-valued families over all set/mapping operand '
+             'combinations, None operands, default and explicit weights; '
+             'weight, result kind, keys and every value are compared with '
+             'the documented formula (cases drawn so that the exact result '
+             'is representable).',
+        note='overflow behaviour is not specified by the property and is '
+             'not requested'),
+    'C13': dict(
+        cat='exploration', ref='5 C13',
+        technique='oracle monitor: independent representability predicate '
+                  'x every writing entry point x boundary/hostile datum',
+        text='Every boundary or hostile datum is offered as key and as '
+             'value through item assignment, insert, setdefault, update, '
+             'constructors, add, Set.update and __setstate__, on empty and '
+             'populated containers of every family, kind and '
+             'implementation; representable data must read back in normal '
+             'form, anything else must raise TypeError and change nothing, '
+             'and its lookup must report absence.',
+        note='trusted: families.key_ok/val_ok/norm_val; known findings F08, '
+             'F15, F17'),
+    'C14': dict(
+        cat='fault_enumeration', ref='5 C14',
+        technique='fault enumeration at run time: fail the n-th key '
+                  'comparison of every operation (counter in FKey), '
+                  'structural + contents + reference-count-ledger oracle',
+        text='For containers reached by histories with instrumented keys, '
+             'each operation kind is run once to count its comparisons and '
+             'then re-run on a rebuilt container failing the n-th one, for '
+             'all n (sampled above 12 per operation in the quick tier); the '
+             'exception must reach the caller, the container stay sound '
+             'with previous or completed contents, reference counts balance '
+             'and later operations behave.',
+        note='enumeration is complete per (container, operation) in the '
+             'thorough tier; containers are sampled'),
+    'C15': dict(
+        cat='exploration', ref='5 C15',
+        technique='interleaving monitor: iterator / lazy-sequence steps vs '
+                  'cursor-aimed mutations, step-outcome oracle, crash '
+                  'detection, ASan+UBSan build',
+        text='Live iterators and lazy sequences are stepped while the '
+             'container is mutated with operations aimed at the cursor '
+             '(unlink / split the leaf it is parked on, delete the entry '
+             'under it, clear); each step must yield an entry, stop, or '
+             'raise RuntimeError/IndexError; afterwards the container must '
+             'be sound and equal the model; also under ASan.',
+        note='a dead worker counts as a crash of the library'),
+    'C16': dict(
+        cat='exploration', ref='5 C16, 3.7',
+        technique='reference-count ledger at every quiescent point + '
+                  'ASan/UBSan build with PYTHONMALLOC=malloc',
+        text='After every operation of histories on the object-keyed / '
+             'object-valued C classes (incl. error paths, failing '
+             'comparisons, set algebra, merges, iterators dropped half-way, '
+             'pickling, commit / eviction / reload) the change of '
+             'sys.getrefcount of every tracked object must equal the change '
+             'of its occurrences in node slots; after destruction every '
+             'object is back at its baseline; the same workload runs under '
+             'ASan.',
+        note='red-zone ASan misses intra-object overflows and reads of '
+             'uninitialised memory'),
+    'C17': dict(
+        cat='fault_enumeration', ref='5 C17, 10',
+        technique='fault enumeration with the guarded allocation hook: fail '
+                  'the n-th BTree_Malloc/BTree_Realloc of every allocating '
+                  'operation; ASan build',
+        text='Using the BTREES_VERIF countdown hook every allocation of '
+             'every allocating operation is failed in turn on containers '
+             'reached by histories; the call must raise MemoryError (or, '
+             'for the multiunion sort buffer, fall back correctly), the '
+             'container stay sound with previous or completed contents, and '
+             'a follow-up workload plus destruction behave, also under '
+             'ASan.',
+        note='only allocations routed through BTree_Malloc/BTree_Realloc and '
+             'the radix-sort buffer can be failed'),
+    'C18': dict(
+        cat='exploration', ref='5 C18',
+        technique='tree surgeon + independent walker as oracle: single '
+                  'corruptions applied through __setstate__ at every node '
+                  'position',
+        text='Valid trees and their surgeon-rebuilt controls must be '
+             'accepted by check() and _check(); for every node position one '
+             'corruption per class is applied through __setstate__ and, '
+             'whenever the independent walker confirms that it breaks key '
+             'order, containment, linking, child kinds or non-emptiness, '
+             'check() or _check() must raise AssertionError.',
+        note='trusted: vmon/walker.py decides whether a corruption is real'),
+    'C19': dict(
+        cat='exploration', ref='5 C19',
+        technique='oracle monitor: integer arithmetic model for the '
+                  'resolution formula and the cell; two-connection '
+                  'schedules through MiniDB',
+        text='Length._p_resolveConflict is compared with old + a + b for '
+             'integers of every magnitude in both orders; set / change / '
+             'call / getstate / setstate / pickle / copy histories follow an '
+             'int model (incl. state 0 and subclasses with another '
+             'default); two connections change one committed Length in '
+             'both commit orders and a fresh reader must see both changes.',
+        note='integers are sampled'),
 }
 
 NOT_YET = {}
